@@ -102,3 +102,27 @@ def write_ndk(path, recs, trailing_newline=True):
         lines += ndk_record(r)
     with open(path, "w") as f:
         f.write("\n".join(lines) + ("\n" if trailing_newline else ""))
+
+
+# ------------------------------------------------------------------ gridded forecasts
+def write_gridded_ascii(path, rows, swap_latlon=False):
+    """rows: (lon0, lon1, lat0, lat1, mag0, mag1, rate, flag) -> 'lon0 lon1 lat0 lat1 z0 z1 mag0 mag1 rate flag' (floats by repr)"""
+    with open(path, "w") as f:
+        for lon0, lon1, lat0, lat1, m0, m1, rate, flag in rows:
+            a = (lat0, lat1, lon0, lon1) if swap_latlon else (lon0, lon1, lat0, lat1)
+            f.write(" ".join(repr(float(v)) for v in a + (0.0, 30.0, m0, m1, rate)) + " %d\n" % flag)
+
+
+def write_quadtree_ascii(path, rows):
+    """rows: (quadkey, lon0, lon1, lat0, lat1, mag0, mag1, rate) -> 'qk lon0 lon1 lat0 lat1 z0 z1 mag0 mag1 rate'"""
+    with open(path, "w") as f:
+        for qk, lon0, lon1, lat0, lat1, m0, m1, rate in rows:
+            f.write(qk + " " + " ".join(repr(float(v)) for v in (lon0, lon1, lat0, lat1, 0.0, 30.0, m0, m1, rate)) + "\n")
+
+
+def write_quadtree_csv(path, keys, mags, rates):
+    """header 'quadkey,depth_min,depth_max,m0,m1,...' then one row per tile"""
+    with open(path, "w") as f:
+        f.write(",".join(["quadkey", "depth_min", "depth_max"] + [repr(float(m)) for m in mags]) + "\n")
+        for k, row in zip(keys, rates):
+            f.write(",".join([k, "0.0", "30.0"] + [repr(float(r)) for r in row]) + "\n")
